@@ -269,10 +269,12 @@ def cmd_check(args):
         moddir = prepare_module(repo)
         gen_corpus(moddir, prop, conf, tier, seed)
         bins = {}
-        for v in conf["variants"]:
-            if tier not in v.get("tiers", ("quick", "thorough")):
-                continue
-            bins[v["name"]] = (v, build_variant(moddir, prop, conf, v))
+        todo = [v for v in conf["variants"] if tier in v.get("tiers", ("quick", "thorough"))]
+        import concurrent.futures
+        with concurrent.futures.ThreadPoolExecutor(max_workers=len(todo)) as ex:
+            futs = [(v, ex.submit(build_variant, moddir, prop, conf, v)) for v in todo]
+            for v, fu in futs:
+                bins[v["name"]] = (v, fu.result())
     except RuntimeError as e:
         log(str(e))
         print("INCONCLUSIVE property=%s reason=build" % prop)
@@ -409,6 +411,10 @@ def cmd_check(args):
         if crash or s.rc < 0 or s.rc not in (0, 1):
             if "cannot allocate memory" in s.log and "runtime: out of memory" not in s.log and not crash:
                 infra.append("shard %s/%d: ENOMEM" % (s.variant["name"], s.idx))
+                continue
+            if s.rc == -9 and not crash:
+                # SIGKILL that the driver did not send and no Go diagnostic: the kernel's OOM killer
+                infra.append("shard %s/%d killed by SIGKILL from outside (machine out of memory?)" % (s.variant["name"], s.idx))
                 continue
             body, _ = read_journal(s.out)
             violations.append(journal_payload(prop, s, body, "process died: %s (rc=%s)" % (crash or "no diagnostic", s.rc)))
